@@ -59,6 +59,9 @@ CLAIMED = {
  "C17": ("exhaustive small-scope enumeration of labelled graphs plus proptest-generated graph families; direct clique-tree validity oracle on the analysis run through the solver's constructor path; non-termination monitor",
          "Exploration: every labelled graph on <= 6 (quick) / <= 7 (thorough) vertices x 3 merge strategies; 640k (quick) / 6.6M (thorough) generated graphs up to 200 / 400 vertices (banded, arrow, block chains, disconnected, random chordal, random sparse, cycles/grids, relabelled). Checked: permutation, consecutive supernode ranges, separator = clique ∩ parent, root last in post order, running intersection, coverage of every structural nonzero, block sizes, undecomposed only when dense/merged. A case that does not return within 120 s (600 s thorough; cases take microseconds to seconds) is reported as non-termination.",
          "Trusted: the tree validator in harness/src/props/c17.rs; the guarded accessor view clarabel::verif::chordal::PatternView.", "DESIGN.md §4 C17"),
+ "C18": ("proptest-generated sparse SDPs; layout-agnostic linear identities on the guarded augment/reverse wrappers (primal: reversed slack = b - Ax; dual: adjointness; clique-block agreement and PSD completion) plus differential solves with decomposition on/off judged on the original problem",
+         "Exploration: 12k (quick) / 400k (thorough) planted-feasible SDPs with 1-3 sparse PSD cones of order 4-9 (banded, arrow, block chain, disconnected, random chordal/sparse) among zero/nonnegative(+infinite bounds)/SOC/exp/pow/dense PSD cones in every order x compact|standard x 3 merge strategies x completion x presolve. Each case: index-level identities with random vectors, validity of every clique tree, and two solves (decomposition off/on): no contradictory verdict, objectives agree, returned point satisfies the original KKT conditions within RELAX=50 x the tolerances (+ explicit size-dependent gap term), slack and completed dual PSD. Rate of verdicts lost by the decomposed solve reported (fails above 2%).",
+         SOLVE_NOTE + " PSD orders <= 9: defects that need large cliques or hundreds of overlaps are out of reach.", "DESIGN.md §4 C18"),
  "C19": ("proptest-generated save/load round trips (file content compared with the user's data and across generations) and fault injection on saved files (truncation, byte and token-level corruption)",
          "Exploration: 6k round trips and 40k faulted loads (quick; 200k / 2M thorough): every cone variant, empty matrices, extreme values, infinite and above-bound right-hand sides, every settings field randomised, optional override; the saved file must equal the user's data (exactly when equilibration is off), the loaded settings the saved/override ones, a second save the first, and both solvers the same verdict (bit-identical when equilibration is off). Corrupted files must yield Err or a solver that solves without panicking.",
          "Trusted: serde_json parsing of the saved text; temporary files are anonymous files under harness/target/cv-tmp; corrupted-but-accepted files are solved with sane settings (no termination is promised for e.g. a backtracking factor of 8).", "DESIGN.md §4 C19"),
